@@ -282,6 +282,12 @@ func c13Gen(t *rapid.T, methods []vfshared.Method) c13Case {
 		vfshared.AddEmptyListBlobs(req.ProtoReflect(), pos, typed)
 		vfshared.AddEmptyListBlobs(resp.ProtoReflect(), pos, typed)
 	}
+	if rapid.IntRange(0, 2).Draw(t, "jsonBlobs") == 0 {
+		// event blobs in Temporal's JSON encoding: a blob that is rewritten may change its encoding, but label and bytes
+		// must agree (the comparison decodes both sides); with nothing to map the blob stays byte-identical
+		vfshared.ReencodeBlobsAsJSON(req.ProtoReflect())
+		vfshared.ReencodeBlobsAsJSON(resp.ProtoReflect())
+	}
 	return c13Case{Kind: kind, Method: m.FullMethod, NSMap: ns, SAMap: sa, Req: vfMarshal(req), Resp: vfMarshal(resp),
 		ReqTxt: prototext.Format(req), RespTxt: prototext.Format(resp)}
 }
